@@ -1,4 +1,5 @@
 import RV.Model.Diag
+import RV.Model.WHInt
 import RV.Driver.Util
 /-
   drv_c04: runs RV/Model/Diag.lean on IEEE doubles.  Particles are `m x y z vx vy vz`.
@@ -8,8 +9,9 @@ import RV.Driver.Util
     com    N                 parts*N            -> m x y z vx vy vz
     lf     N Na tp ignore G soft dt nsteps parts*N  -> (x y z vx vy vz)*N   (LEAPFROG + BASIC)
     merge  G potential vcx vcy vcz  part part   -> m x y z vx vy vz dE
+    whint  N G soft dt m0 a0x a0y a0z (m ax ay az x y z vx vy vz)*(N-1)  -> (vx vy vz)*(N-1)   (reb_whfast_interaction_step, Jacobi)
 -/
-open RV RV.Driver RV.Gravity RV.Diag
+open RV RV.Driver RV.Gravity RV.Diag RV.WHInt
 
 def nat (s : String) : Nat := s.toNat?.getD 0
 
@@ -56,6 +58,16 @@ def step (toks : List String) : String :=
     let ps := parts t 6 2
     let o := merge sq (fl t[1]!) (nat t[2]! != 0) ⟨fl t[3]!, fl t[4]!, fl t[5]!⟩ ps[0]! ps[1]!
     outPart o.p ++ " " ++ hx o.dE
+  | "whint" :: _ =>
+    if t.size < 9 then "bad-op" else
+    let n := nat t[1]!
+    if n == 0 || t.size != 9 + 10*(n-1) then "bad-op" else
+    let idx := Array.range (n-1)
+    let f := fun (i k : Nat) => fl t[9 + 10*i + k]!
+    let bodies := (idx.map fun i => ({ m := f i 0, x := ⟨f i 4, f i 5, f i 6⟩, v := ⟨f i 7, f i 8, f i 9⟩ } : JB Float)).toList
+    let accs := (idx.map fun i => (⟨f i 1, f i 2, f i 3⟩ : V3 Float)).toList
+    let out := interactionJacobi sq (fl t[2]!) (fl t[3]!) (fl t[4]!) (fl t[5]!) ⟨fl t[6]!, fl t[7]!, fl t[8]!⟩ bodies accs
+    " ".intercalate (out.map fun v => hxs [v.x, v.y, v.z])
   | _ => "bad-op"
 
 def main : IO Unit := runLines step
